@@ -5,6 +5,7 @@ recvmsg and epoll_pwait are interposed (scripted EAGAIN/EINTR/short reads/errors
 every epoll event for the descriptor is logged).  The logged environment plus the program is fed to
 `uvdriver c06`, every callback / return-code line is diffed.  Monitors evaluate the property text on
 the implementation's log alone."""
+import zlib
 from vlib import *
 
 MANIFEST = {
@@ -31,6 +32,9 @@ SIG_IPC = "ipc-hup-short-read-eof-data-lost"
 
 def pat(p):
     return (p * 7 + 3) % 251
+
+
+PAT = bytes(pat(p) for p in range(251))
 
 
 # ----------------------------------------------------------------------------- generation
@@ -73,7 +77,38 @@ def gen_env(rng):
     return out
 
 
+BIGBUF = ["65535", "65536", "65537", "131072", "262144", "1048576"]
+BIGW = [32768, 65535, 65536, 65537, 70000, 131072, 140000, 200000, 300000]
+
+
+def gen_big_case(rng):
+    """buffer-size axis (64K-1, 64K, 64K+1, 128K, 256K, 1M, with a few tiny/default ones) x amount queued in the kernel
+    (around and well above 64 KiB) x hang-up / half-close / open peer, with stop/start in callbacks"""
+    kind = rng.choice(["pipe", "pipe", "tcp", "ipc"])
+    case = ["open " + kind]
+    al = [rng.choice(BIGBUF + BIGBUF + ["1", "4096", "0", "u"]) if rng.chance(7, 8) else "65536" for _ in range(rng.range(0, 8))]
+    if rng.chance(1, 2):
+        al = [rng.choice(BIGBUF[3:])] * rng.range(1, 6)
+    if al:
+        case.append("allocs " + " ".join(al))
+    if rng.chance(1, 3):
+        case.append("env " + " ".join(rng.choice(["n", "n", "e4", "e11", "k60000", "k65536", "k100000"]) for _ in range(rng.range(1, 6))))
+    if rng.chance(1, 3):
+        case.append(f"script {rng.below(3)} " + rng.choice(["stop start", "stop", "start"]))
+    case.append("start")
+    for _ in range(rng.range(1, 3)):
+        case.append(f"peer w {rng.choice(BIGW)}")
+        if kind == "ipc" and rng.chance(1, 3): case.append(f"peer fd {rng.range(1, 9)}")
+        if rng.chance(1, 3): case.append("run")
+    case.append(rng.choice(["peer close", "peer close", "peer shut", "run"]))
+    case += ["run"] * rng.range(2, 5)
+    case.append("end")
+    return case
+
+
 def gen_case(rng, nsteps, bias=None):
+    if bias == "big" or (bias is None and rng.chance(1, 12)):
+        return gen_big_case(rng)
     kind = rng.choice(["pipe", "pipe", "tcp", "ipc", "ipc"])
     if bias == "ipc":
         kind = "ipc"
@@ -154,7 +189,7 @@ def monitor(case, out):
     closing = closed = False
     st = {"short": 0, "eagain": 0, "eintr": 0, "err": 0, "eof_read0": 0, "eof_synth": 0, "enobufs": 0, "cb_ops": 0,
           "cap32": 0, "reads": 0, "bare": 0, "restart_after_eof": 0, "fdmsgs": 0, "events_while_quiet": 0,
-          "events_while_quiet_pollout_armed": 0, "wbig": 0}
+          "events_while_quiet_pollout_armed": 0, "wbig": 0, "reads_cap_gt_64k": 0, "read_cap_lt_buffer": 0, "reads_ge_64k_bytes": 0}
     in_cb = False
     i = 0
     starts_ok = 0           # successful uv_read_start calls so far: the harness registers callback pair (starts_ok - 1) % 4
@@ -187,8 +222,12 @@ def monitor(case, out):
             cap = int(w[2][4:]); r = int(w[4]); st["reads"] += 1
             if pending is None:
                 raise Bad("read-without-alloc", f"read(2) on the stream without a buffer from alloc_cb: {l}")
-            if cap != pending[1]:
+            if cap > pending[1]:
                 raise Bad("read-cap-ne-buffer-len", f"read(2) was given length {cap} for a buffer of {pending[1]} bytes")
+            if cap < pending[1]:
+                st["read_cap_lt_buffer"] += 1      # allowed by the property (it only must not lose data because of it)
+            if cap > 65536: st["reads_cap_gt_64k"] += 1
+            if r >= 65536: st["reads_ge_64k_bytes"] += 1
             if r == -11: st["eagain"] += 1
             elif r == -4: st["eintr"] += 1
             elif r < 0: st["err"] += 1
@@ -227,8 +266,12 @@ def monitor(case, out):
                 if (n == ENOBUFS) != (size == 0):
                     raise Bad("enobufs-mismatch", f"nread {n} for a buffer of length {size}")
             if n > 0:
-                data = bytes.fromhex(w[4])
-                if len(data) != n or any(data[j] != pat(delivered + j) for j in range(n)):
+                exp = (PAT * (n // 251 + 2))[delivered % 251: delivered % 251 + n]
+                if ":" in w[4]:
+                    bad = w[4] != f"{n}:{zlib.adler32(exp):08x}"
+                else:
+                    bad = bytes.fromhex(w[4]) != exp
+                if bad:
                     raise Bad("data-not-in-order-prefix", f"read_cb delivered bytes that are not the next {n} bytes of the peer's stream "
                               f"(stream offset {delivered})")
                 if delivered + n > sent:
